@@ -4,8 +4,10 @@
 
   Part 1: the executable MODEL.  It follows the code: the same loops, the same index arithmetic
   (reversed mask + `argmax`, `range(1, max_path_length)`, `int(dir * i)`, accumulated `tmp += dir`), the
-  same zero-initialised accumulators, the same `-=` / `+=` on the flag word, `nanmedian`, `argsort` with
-  NaN last, the same order of the two passes.
+  same accumulators and guards, the same `-=` then `+=` / `|=` on the flag word, `nanmedian`, `argsort` with
+  NaN last, the same order of the two passes.  It is parametrised by the text of the kernels (`Variant`:
+  with / without the guards of e1d31ca, `+=` / `|=` of 7723010); the variant of the current source is read
+  by the translator.
 
   Part 2: the executable SPECIFICATION, written from the property statement: a relation between the map
   before and after filling, clause by clause, in terms of "first valid pixel on a ray" (a list cut where it
@@ -45,6 +47,28 @@ inductive Method where
 
 /-! ## Part 1 — model -/
 
+/-- the operator with which the kernels raise the new bit: `+=` (before 7723010) or `|=` -/
+inductive RaiseOp where
+  | add
+  | or
+  deriving DecidableEq, Repr
+
+/-- Which text of the kernels is modelled.  `guard`: the accumulator of the mc-cnn mismatch kernel starts
+    at NaN and a flagged pixel is filled only when enough finite sources are in sight (since e1d31ca);
+    without it the accumulator starts at 0 (`np.zeros`) and every flagged pixel is "filled".
+    `op`: `out_val[col, row] += NEW` or `out_val[col, row] |= NEW` (since 7723010).
+    The variant of the current source is read by the translator (`Generated/Interp.lean`). -/
+structure Variant where
+  guard : Bool
+  op : RaiseOp
+  deriving DecidableEq, Repr
+
+/-- `g += new` / `g |= new` -/
+def raise (op : RaiseOp) (g new : Nat) : Nat :=
+  match op with
+  | .add => g + new
+  | .or => g ||| new
+
 /-- `np.argmax` of a boolean vector: index of the first `True`, 0 when there is none. -/
 def argmaxBool (l : List Bool) : Nat :=
   let i := l.findIdx (fun b => b)
@@ -52,26 +76,35 @@ def argmaxBool (l : List Bool) : Nat :=
 
 def b2n (b : Bool) : Nat := if b then 1 else 0
 
-/-- one pixel of `interpolate_occlusion_mc_cnn` -/
-def occlMcPixel (m : DMap) (r c : Nat) : Val × Nat :=
+/-- the search of `interpolate_occlusion_mc_cnn` for a pixel carrying bit 8: the disparity it copies and
+    `msk[arg_valid]` (whether a valid pixel was found) -/
+def occlMcCore (m : DMap) (r c : Nat) : Val × Bool :=
+  -- msk = (valid[col, 0 : row + 1] & INVALID) == 0 ; msk = msk[::-1] ; arg_valid = np.argmax(msk)
+  let mskL := ((List.range (c + 1)).map fun j => m.valid r j).reverse
+  let a := argmaxBool mskL
+  if a == 0 then
+    -- msk = (valid[col, row:] & INVALID) == 0 ; arg_valid = np.argmax(msk)
+    let mskR := (List.range (m.cols - c)).map fun k => m.valid r (c + k)
+    let a := argmaxBool mskR
+    (m.disp r (c + a), mskR.getD a false)
+  else
+    (m.disp r (c - a), mskL.getD a false)
+
+/-- one pixel of `interpolate_occlusion_mc_cnn`:
+    `out_val -= OCCLUSION * msk[arg_valid]` then `out_val (+=|‖=) FILLED_OCCLUSION * msk[arg_valid]` -/
+def occlMcPixel (v : Variant) (m : DMap) (r c : Nat) : Val × Nat :=
   let f := m.flag r c
   if (f &&& occlusion) != 0 then
-    -- msk = (valid[col, 0 : row + 1] & INVALID) == 0 ; msk = msk[::-1] ; arg_valid = np.argmax(msk)
-    let mskL := ((List.range (c + 1)).map fun j => m.valid r j).reverse
-    let a := argmaxBool mskL
-    if a == 0 then
-      -- msk = (valid[col, row:] & INVALID) == 0 ; arg_valid = np.argmax(msk)
-      let mskR := (List.range (m.cols - c)).map fun k => m.valid r (c + k)
-      let a := argmaxBool mskR
-      let b := b2n (mskR.getD a false)
-      (m.disp r (c + a), f - occlusion * b + filledOcclusion * b)
-    else
-      let b := b2n (mskL.getD a false)
-      (m.disp r (c - a), f - occlusion * b + filledOcclusion * b)
+    let p := occlMcCore m r c
+    let b := b2n p.2
+    (p.1, raise v.op (f - occlusion * b) (filledOcclusion * b))
   else (m.disp r c, f)
 
-def occlMc (m : DMap) : DMap :=
-  { m with disp := fun r c => (occlMcPixel m r c).1, flag := fun r c => (occlMcPixel m r c).2 }
+/-- a kernel applied to every pixel (each kernel reads its inputs and writes copies) -/
+def lift (k : DMap → Nat → Nat → Val × Nat) (m : DMap) : DMap :=
+  { m with disp := fun r c => (k m r c).1, flag := fun r c => (k m r c).2 }
+
+def occlMc (v : Variant) : DMap → DMap := lift (occlMcPixel v)
 
 /-- The 16 directions of `interpolate_mismatch_mc_cnn`, doubled so that they are integers:
     `(2·dirs[k][0], 2·dirs[k][1])`; the first component moves the second array index. -/
@@ -87,14 +120,14 @@ def posMc (r c : Nat) (d : Int × Int) (i : Nat) : Int × Int :=
   ((r : Int) + truncHalf d.2 i, (c : Int) + truncHalf d.1 i)
 
 /-- `for i in range(i, i + fuel): … break` over the positions `pos i`, writing into an accumulator
-    cell that was initialised with `np.zeros`: NaN when the edge is reached, the disparity of the first
-    valid pixel, and the initial 0 when the loop runs to its end. -/
-def scanLoop (m : DMap) (pos : Nat → Int × Int) : (fuel i : Nat) → Val
-  | 0, _ => .num 0
+    cell initialised with `init`: NaN when the edge is reached, the disparity of the first valid pixel,
+    and `init` when the loop runs to its end. -/
+def scanLoop (init : Val) (m : DMap) (pos : Nat → Int × Int) : (fuel i : Nat) → Val
+  | 0, _ => init
   | fuel + 1, i =>
     if !m.inside (pos i) then .nan
     else if m.validAt (pos i) then m.dispAt (pos i)
-    else scanLoop m pos fuel (i + 1)
+    else scanLoop init m pos fuel (i + 1)
 
 /-- non-NaN entries -/
 def nums : List Val → List Rat
@@ -128,16 +161,19 @@ def median (l : List Rat) : Val := medianSorted (isort leRat l)
 def nanmedian (l : List Val) : Val := median (nums l)
 
 /-- one pixel of `interpolate_mismatch_mc_cnn` -/
-def mismMcPixel (m : DMap) (r c : Nat) : Val × Nat :=
+def mismMcPixel (v : Variant) (m : DMap) (r c : Nat) : Val × Nat :=
   let f := m.flag r c
   if (f &&& mismatch) != 0 then
     let maxPathLength := max m.cols m.rows
-    let interp := dirs16.map fun d => scanLoop m (posMc r c d) (maxPathLength - 1) 1
-    (nanmedian interp, f - mismatch + filledMismatch)
+    -- interp_mismatched = np.full(16, np.nan) (guard) / np.zeros(16)
+    let init : Val := if v.guard then .nan else .num 0
+    let interp := dirs16.map fun d => scanLoop init m (posMc r c d) (maxPathLength - 1) 1
+    -- if np.isfinite(interp_mismatched).any():
+    if v.guard && (nums interp).isEmpty then (m.disp r c, f)
+    else (nanmedian interp, raise v.op (f - mismatch) filledMismatch)
   else (m.disp r c, f)
 
-def mismMc (m : DMap) : DMap :=
-  { m with disp := fun r c => (mismMcPixel m r c).1, flag := fun r c => (mismMcPixel m r c).2 }
+def mismMc (v : Variant) : DMap → DMap := lift (mismMcPixel v)
 
 /-- border of width `off` (`mask_border`: the four slice assignments) -/
 def isBorder (m : DMap) (off r c : Nat) : Bool :=
@@ -148,7 +184,7 @@ def maskBorder (off : Nat) (m : DMap) : DMap :=
   { m with flag := fun r c => if off > 0 && isBorder m off r c then leftNodataOrBorder else m.flag r c }
 
 /-- `McCnnInterpolation.interpolated_disparity` -/
-def mccnn (off : Nat) (m : DMap) : DMap := maskBorder off (mismMc (occlMc m))
+def mccnn (v : Variant) (off : Nat) (m : DMap) : DMap := maskBorder off (mismMc v (occlMc v m))
 
 /-- The 8 directions of the sgm kernels `[row, col]`; the first component moves the second index. -/
 def dirs8 : List (Int × Int) :=
@@ -174,15 +210,18 @@ def occlusionSum3x3 (m : DMap) (r c : Nat) : Nat :=
   (rs.map fun r' => (cs.map fun c' => m.flag r' c' &&& occlusion).sum).sum
 
 /-- one pixel of `interpolate_mismatch_sgm` -/
-def mismSgmPixel (m : DMap) (r c : Nat) : Val × Nat :=
+def mismSgmPixel (v : Variant) (m : DMap) (r c : Nat) : Val × Nat :=
   let f := m.flag r c
   if (f &&& mismatch) != 0 then
-    if occlusionSum3x3 m r c != 0 then (m.disp r c, f - mismatch + occlusion)
-    else (nanmedian (findValidNeighbors m r c), f - mismatch + filledMismatch)
+    if occlusionSum3x3 m r c != 0 then (m.disp r c, raise v.op (f - mismatch) occlusion)
+    else
+      let vn := findValidNeighbors m r c
+      -- if np.isfinite(valid_neighbors).any():
+      if v.guard && (nums vn).isEmpty then (m.disp r c, f)
+      else (nanmedian vn, raise v.op (f - mismatch) filledMismatch)
   else (m.disp r c, f)
 
-def mismSgm (m : DMap) : DMap :=
-  { m with disp := fun r c => (mismSgmPixel m r c).1, flag := fun r c => (mismSgmPixel m r c).2 }
+def mismSgm (v : Variant) : DMap → DMap := lift (mismSgmPixel v)
 
 /-- `np.abs` -/
 def absQ (q : Rat) : Rat := if q < 0 then -q else q
@@ -200,22 +239,29 @@ def absLe : Val → Val → Bool
 def secondLowestAbs (vn : List Val) : Val := (isort absLe vn).getD 1 .nan
 
 /-- one pixel of `interpolate_occlusion_sgm` -/
-def occlSgmPixel (m : DMap) (r c : Nat) : Val × Nat :=
+def occlSgmPixel (v : Variant) (m : DMap) (r c : Nat) : Val × Nat :=
   let f := m.flag r c
   if (f &&& occlusion) != 0 then
-    (secondLowestAbs (findValidNeighbors m r c), f - occlusion + filledOcclusion)
+    let vn := findValidNeighbors m r c
+    -- if np.sum(np.isfinite(valid_neighbors)) >= 2:
+    if v.guard && (nums vn).length < 2 then (m.disp r c, f)
+    else (secondLowestAbs vn, raise v.op (f - occlusion) filledOcclusion)
   else (m.disp r c, f)
 
-def occlSgm (m : DMap) : DMap :=
-  { m with disp := fun r c => (occlSgmPixel m r c).1, flag := fun r c => (occlSgmPixel m r c).2 }
+def occlSgm (v : Variant) : DMap → DMap := lift (occlSgmPixel v)
 
 /-- `SgmInterpolation.interpolated_disparity` (no `mask_border` there) -/
-def sgm (m : DMap) : DMap := occlSgm (mismSgm m)
+def sgm (v : Variant) (m : DMap) : DMap := occlSgm v (mismSgm v m)
 
-def interpolate (meth : Method) (off : Nat) (m : DMap) : DMap :=
+def interpolate (v : Variant) (meth : Method) (off : Nat) (m : DMap) : DMap :=
   match meth with
-  | .mccnn => mccnn off m
-  | .sgm => sgm m
+  | .mccnn => mccnn v off m
+  | .sgm => sgm v m
+
+def firstPass (v : Variant) (meth : Method) (a : DMap) : DMap :=
+  match meth with
+  | .mccnn => occlMc v a
+  | .sgm => mismSgm v a
 
 /-! ## Part 2 — specification (from the property statement) -/
 
@@ -450,8 +496,9 @@ def validFinite (a : DMap) : Bool := allPx a fun r c => !a.valid r c || (a.disp 
 def oneFlag (a : DMap) : Bool :=
   allPx a fun r c => !(hasBit (a.flag r c) occlusion && hasBit (a.flag r c) mismatch)
 
-/-- a flagged pixel does not already carry the "filled" bit it is about to receive
-    (it would, after a previous validation step with filling: `+=` then carries, finding F4) -/
+/-- a flagged pixel does not already carry the "filled" bit it is about to receive (it would, after a
+    previous validation step with filling).  Needed only for the `+=` form of the kernels, where the addition
+    then carries into the next bit (finding F4, repaired by 7723010). -/
 def noStaleFill (meth : Method) (a : DMap) : Bool :=
   allPx a fun r c =>
     let f := a.flag r c
@@ -463,18 +510,21 @@ def noStaleFill (meth : Method) (a : DMap) : Bool :=
 def borderClean (off : Nat) (a : DMap) : Bool :=
   allPx a fun r c => !(decide (off > 0) && isBorder a off r c) || a.flag r c == leftNodataOrBorder
 
-def wf (meth : Method) (off : Nat) (a : DMap) : Bool :=
-  validFinite a && oneFlag a && noStaleFill meth a && borderClean off a
+/-- maps as a cross-check leaves them (`noStaleFill` is demanded of the `+=` form only) -/
+def wf (op : RaiseOp) (meth : Method) (off : Nat) (a : DMap) : Bool :=
+  validFinite a && oneFlag a && (decide (op = .or) || noStaleFill meth a) && borderClean off a
 
 /-- mc-cnn mismatch, direction `d`: every one of the `max(rows, cols) − 1` steps stays inside the
-    image on an invalid pixel: the loop ends without `break` and the zero of `np.zeros` is used -/
+    image on an invalid pixel: the loop ends without `break` and the initial value of the accumulator is
+    used (the 0 of `np.zeros` before e1d31ca, finding F6b) -/
 def runOff (m : DMap) (r c : Nat) (d : Int × Int) : Bool :=
   (List.range' 1 (max m.cols m.rows - 1)).all fun i => m.inside (posMc r c d i) && !m.validAt (posMc r c d i)
 
 def anyRunOff (m : DMap) (r c : Nat) : Bool := dirs16.any fun d => runOff m r c d
 
-/-- the situation of pixel `(r, c)` of the input `a` (`mid` = the model's map after the first pass),
-    "" when the code is expected to behave as the statement says -/
+/-- a name for the situation of pixel `(r, c)` of the input `a` (`mid` = the model's map after the first
+    pass), "" when there is nothing special: used as `trigger` tag of reported failures and to count the
+    input distribution.  The first four are the situations in which the unguarded kernels filled from nothing. -/
 def triggerAt (meth : Method) (a mid : DMap) (r c : Nat) : String :=
   let f := a.flag r c
   if !flagged f then ""
@@ -484,31 +534,12 @@ def triggerAt (meth : Method) (a mid : DMap) (r c : Nat) : String :=
   else
     match meth, kindOf meth a r c with
     | .mccnn, .mism =>
-      if anyRunOff mid r c then "mccnn_mismatch_path_ends_at_far_edge"
-      else if (nums (sourcesMc mid r c)).isEmpty then "mccnn_mismatch_no_valid_in_sight"
+      if (nums (sourcesMc mid r c)).isEmpty then "mccnn_mismatch_no_valid_in_sight"
+      else if anyRunOff mid r c then "mccnn_mismatch_path_ends_at_far_edge"
       else ""
     | .sgm, .mism => if (nums (sourcesSgm a r c)).isEmpty then "sgm_mismatch_no_valid_in_sight" else ""
     | .sgm, .occl => if (nums (sourcesSgm mid r c)).length < 2 then "sgm_occlusion_fewer_than_two_valid" else ""
     | .sgm, .mismAsOccl => if (nums (sourcesSgm mid r c)).length < 2 then "sgm_occlusion_fewer_than_two_valid" else ""
     | _, _ => ""
-
-def firstPass (meth : Method) (a : DMap) : DMap :=
-  match meth with
-  | .mccnn => occlMc a
-  | .sgm => mismSgm a
-
-/-- the code is expected to behave as the statement says at pixel `(r, c)`: the pixel is not in one of
-    the "fills from nothing" situations (`mid` = the map after the first pass) -/
-def okAt (meth : Method) (a mid : DMap) (r c : Nat) : Bool :=
-  match meth, kindOf meth a r c with
-  | .mccnn, .mism => !anyRunOff mid r c && !(nums (sourcesMc mid r c)).isEmpty
-  | .sgm, .mism => !(nums (sourcesSgm a r c)).isEmpty
-  | .sgm, .occl => decide (2 ≤ (nums (sourcesSgm mid r c)).length)
-  | .sgm, .mismAsOccl => decide (2 ≤ (nums (sourcesSgm mid r c)).length)
-  | _, _ => true
-
-/-- no flagged pixel is in one of the situations above -/
-def noTrigger (meth : Method) (a : DMap) : Bool :=
-  allPx a fun r c => okAt meth a (firstPass meth a) r c
 
 end Pandora.Interp
